@@ -325,7 +325,10 @@ func c07NumText(r gen.R) string {
 		}
 		return s
 	}
-	switch r.Pick("c07num", 4, 4, 5, 3, 3, 3) {
+	switch r.Pick("c07num", 4, 4, 5, 3, 3, 3, 2) {
+	case 6:
+		// legacy octal integer: a leading zero followed by octal digits only (`00`, `017`, `0007`)
+		return "0" + digits(1+r.Intn(12, "nlo"), "01234567")
 	case 0:
 		return nz(1 + r.Intn(18, "nd"))
 	case 1:
@@ -497,6 +500,33 @@ func c07EnumPieces(rec *evid.Recorder, add func(ir.Piece), rawLit func(c07Lit)) 
 	for v := 0xD7F0; v < 0xE010; v++ {
 		ub(v)
 	}
+	// sequences of two and three \\uHHHH escapes around the surrogate ranges: a
+	// decoder that pairs escapes must pair a high with a low surrogate only
+	su := []int{0x0041, 0xD7FF, 0xD800, 0xD83D, 0xDBFF, 0xDC00, 0xDE00, 0xDFFF, 0xE000, 0xFFFF}
+	seq := func(vs ...int) {
+		for qi, q := range []string{"\"", "'"} {
+			var src strings.Builder
+			var units []uint16
+			for k, v := range vs {
+				if (k+qi)%3 == 2 && (v < 0xD800 || v > 0xDFFF) {
+					fmt.Fprintf(&src, "\\u{%x}", v)
+				} else {
+					fmt.Fprintf(&src, "\\u%04X", v)
+				}
+				units = append(units, uint16(v))
+			}
+			rawLit(c07Lit{Src: q + src.String() + q, Units: units, Known: true})
+		}
+	}
+	for _, a := range su {
+		for _, b := range su {
+			seq(a, b)
+			for _, c := range su {
+				seq(a, b, c)
+			}
+		}
+	}
+	rec.Exhaustive("every pair and triple of \\uHHHH escapes over 10 code units around the surrogate ranges")
 	// every ASCII byte raw and backslash-escaped
 	for c := 0; c < 128; c++ {
 		if c == '\n' || c == '\r' {
